@@ -14,6 +14,11 @@ open VgiVerif.Introspect
 /-- allow-listed *and* authenticated -/
 def Authorized (cfg : Cfg) (c : Caller) : Prop := c.authenticated = true ∧ c.principal ∈ cfg.allow
 
+/-- the caller's principal is one of the names the operator configured: a non-empty string that occurs, as written,
+among the configured entries.  A blank entry (e.g. from a trailing comma) names nobody; a caller that authenticated
+without a principal (`None` / `""`) is named by no entry. -/
+def Listed (configured : List (List Char)) (principal : List Char) : Prop := principal ≠ [] ∧ principal ∈ configured
+
 /-- base64url alphabet -/
 def B64Url (c : Char) : Prop :=
   (65 ≤ c.toNat ∧ c.toNat ≤ 90) ∨ (97 ≤ c.toNat ∧ c.toNat ≤ 122) ∨ (48 ≤ c.toNat ∧ c.toNat ≤ 57) ∨ c = '_' ∨ c = '-'
